@@ -387,7 +387,7 @@ Print Assumptions C01_digit_rs_matches_model.
    one-line functions delegates to breaks this theorem ---- *)
 From Bnum.Model Require Import Digit Core Shift AddSub Mul Div Bits Pow.
 From Bnum.Generated Require Import Glue.
-From Bnum.Proofs Require Import GlueTie.
+From Bnum.Proofs Require Import GlueTieCommon GlueTieC01.
 Theorem C01_glue_rs_matches_model :
   (forall w a b, Glue.U_checked_add w a b = U_checked_add w a b) /\
   (forall w a b, Glue.U_checked_add_signed w a b = U_checked_add_signed w a b) /\
